@@ -22,3 +22,21 @@ for sid, r in sorted(res.items()):
         meta["notes"] = "harness error in: " + ", ".join(k for k, v in r.items() if v[0] == "harness-error")
     json.dump(meta, open(p, "w"), indent=1)
     print(sid, t, "DETECTED" if t in meta["detected_by"] else "MISSED", ",".join(meta["detected_by"]))
+
+# ---- independent re-implementations: alarms from selftest/results/refactors_seeded.txt
+rp = f"{ROOT}/selftest/results/refactors_seeded.txt"
+if os.path.exists(rp):
+    rr = collections.defaultdict(dict)
+    for line in open(rp):
+        m = re.match(r"^(RS-\d+) (C\d\d|-) (DETECTED|missed|harness-error)\s*(.*)$", line.rstrip("\n"))
+        if m:
+            rr[m.group(1)][m.group(2)] = (m.group(3), m.group(4).strip())
+    for rid, r in sorted(rr.items()):
+        p = f"{ROOT}/refactors_seeded/{rid}/meta.json"
+        if not os.path.exists(p) or len(r) < 10:
+            print(rid, "incomplete, left alone"); continue
+        meta = json.load(open(p))
+        meta["alarms"] = [k + ": " + v[1][:200] for k, v in sorted(r.items()) if v[0] == "DETECTED"]
+        meta["harness_errors"] = [k for k, v in r.items() if v[0] == "harness-error"]
+        json.dump(meta, open(p, "w"), indent=1)
+        print(rid, "QUIET" if not meta["alarms"] and not meta["harness_errors"] else "ALARM " + "; ".join(meta["alarms"]))
